@@ -59,6 +59,7 @@ def matrixOf : SExp → Option (Option MatrixM)
 
 def kindOf : SExp → Option PKind
   | .atom "s" => some .str
+  | .atom "x" => some .script
   | .atom "b" => some .bool
   | .atom "c" => some .cond
   | .list [.atom "n", w] => w.str?.map .number
@@ -104,6 +105,43 @@ def hdrOf : SExp → Option Header
       | x => (listOf SExp.str? x).map some
     pure { dispatchInputs := (← optInputs d), callInputs := (← optInputs c), callSecrets := secs }
   | _ => none
+
+def eventOf : SExp → Option Event
+  | .atom "o" => some .other
+  | .list [.atom "d", ins] => do
+    let is ← listOf (fun (p : SExp) => match p with
+      | SExp.list [i, t, ps] => do pure ({ id := (← i.str?), ty := (← tyOf t), probes := (← listOf probeOf ps) } : DispatchInput)
+      | _ => none) ins
+    pure (.dispatch is)
+  | .list [.atom "c", ins, secs] => do
+    let is ← listOf (fun (p : SExp) => match p with
+      | SExp.list [i, t, d] => do
+        let d' ← match d with
+          | .atom "N" => some none
+          | x => (probeOf x).map some
+        pure ({ id := (← i.str?), ty := (← tyOf t), dflt := d' } : CallInput)
+      | _ => none) ins
+    let ss ← match secs with
+      | .atom "N" => some none
+      | x => (listOf SExp.str? x).map some
+    pure (.call is ss)
+  | _ => none
+
+def showOut (out : Out) : String :=
+  let sorted := out.toArray.qsort (fun a b => a.1 < b.1) |>.toList
+  ";".intercalate (sorted.map fun (t, errs) =>
+    s!"{t}={"|".intercalate ((errs.map errS).toArray.qsort (· < ·) |>.toList)}")
+
+/-- `visitsrc <workflow>`: (events, top-level probes, jobs, call-output probes) -/
+def handleSrc : List String → String
+  | [w] =>
+    match readSExp w with
+    | some (.list [evs, top, js, cos]) =>
+      match listOf eventOf evs, listOf probeOf top, listOf jobOf js, listOf probeOf cos with
+      | some events, some tops, some jobs, some couts => showOut (runSource lower events tops jobs jobs couts)
+      | _, _, _, _ => "bad-op"
+    | _ => "bad-op"
+  | _ => "bad-op"
 
 /-- `visit <workflow>`: (header, jobs, call-output probes) → `tag=code|code;…` for every probe, by tag -/
 def handle : List String → String
